@@ -1,7 +1,7 @@
 """C07 - Every storage backend behaves as a masked n-d object array."""
 from __future__ import annotations
 
-from contracts import storage
+from contracts import slices, storage
 from vf.driver import ProofItem
 
 ID = "C07"
@@ -53,12 +53,22 @@ def _call_nk(fn, a):
     return fn(a["key"], a["shape"], a["internal_shape"], a["shape_mask"], for_dump=a["for_dump"])
 
 
+def _sreg():
+    return {**{c.short: c for c in slices.ALL}, **{c.name: c for c in slices.ALL}}
+
+
 def proof_items():
     return [
         ProofItem(storage.select_by_mask, bounds={"ints": (0, 1, 2), "maxlen": 3}),
         ProofItem(storage.normalize_key, gen=_nk_gen, call=_call_nk),
         ProofItem(storage.external_shape_from_mask, bounds={"ints": (0, 1, 2), "maxlen": 3}),
         ProofItem(storage.internal_shape_from_mask, bounds={"ints": (0, 1, 2), "maxlen": 3}),
+        # slice keys: one range per key position - an integer addresses itself, a slice what slice.indices gives for the
+        # size of the axis the position indexes (dict backends: the full shape; file backend: by the mask / dump mode)
+        ProofItem(slices.dict_slice_indices, gen=slices.dsi_gen, registry=_sreg),
+        ProofItem(slices.file_slice_indices, gen=slices.fsi_gen, call=slices.fsi_call, registry=_sreg),
+        ProofItem(slices.fa_normalize_key_real, gen=slices.fnk_gen, call=slices.fsi_call,
+                  registry=lambda: {**{c.short: c for c in slices.NK_REAL}, **{c.name: c for c in slices.NK_REAL}}),
     ]
 
 
